@@ -44,8 +44,8 @@ for path in sorted(glob.glob(os.path.join(root, 'proposed', 'finding-*.json'))):
         entry['record'] = 'known: property=%s %s' % (d['property'], what[:200])
     if fid in by_id:
         old = by_id[fid]
-        if old.get('status') == entry['status']:
-            continue
+        if old.get('status') == entry['status'] or old.get('status') == 'fixed':
+            continue  # never downgrade a fixed record
         old.clear(); old.update(entry)
         print('updated', fid, entry['status'])
     else:
